@@ -28,6 +28,7 @@ class MigWorld(World):
         self.legacy_hash = {}
         self.phase = "legacy"
         self.new_dump = None
+        self.deleted_after = set()
 
     def data_dir(self):
         return os.path.join(self.home, "data", "activitywatch", "aw-server")
@@ -102,6 +103,22 @@ class MigWorld(World):
             self.new_dump = self.dump()
         return out
 
+    def op_new_delete_bucket(self, s):
+        """The user deletes one of the migrated buckets in the new store."""
+        if self.phase != "new" or self.ds is None:
+            return {"skipped": "no new store"}
+        ids = sorted(self.expected.get(self.profile, {}))
+        if not ids:
+            return {"skipped": "nothing migrated"}
+        b = ids[s["k"] % len(ids)]
+        out = self._call(self.ds.delete_bucket, b)
+        if out["exc"] is None:
+            del self.expected[self.profile][b]
+            self.deleted_after.add(b)
+            self.new_dump = self.dump()
+            self.probes["migrated_bucket_deleted_then_restart"] += 1
+        return out
+
     def op_first_start_other(self, s):
         """The same process now also starts the new store of the OTHER profile (a tool that migrates both)."""
         other = not self.profile
@@ -173,7 +190,7 @@ class C14(Check):
         "under the same bucket ids; then first start and a restart of the default SqliteStorage in the same fake home; "
         "non-trivial = legacy store held >=1 bucket with >=1 event; distinct = (profile, op-kind sequence, events per bucket)"
     )
-    expected_probes = ["legacy_events_migrated", "legacy_bucket_with_data", "legacy_bucket_name_omitted", "distractor_profile_present", "legacy_exit_dirty", "id_holes", "profile_testing", "profile_normal", "unicode_bucket_id", "restart_new_checked", "legacy_bucket_over_1000_events", "legacy_negative_duration", "new_store_exit_without_shutdown", "bucket_ids_differ_in_case", "both_profiles_migrated_in_one_process", "legacy_unpaired_surrogate"]
+    expected_probes = ["legacy_events_migrated", "legacy_bucket_with_data", "legacy_bucket_name_omitted", "distractor_profile_present", "legacy_exit_dirty", "id_holes", "profile_testing", "profile_normal", "unicode_bucket_id", "restart_new_checked", "legacy_bucket_over_1000_events", "legacy_negative_duration", "new_store_exit_without_shutdown", "bucket_ids_differ_in_case", "both_profiles_migrated_in_one_process", "legacy_unpaired_surrogate", "migrated_bucket_deleted_then_restart"]
     assumptions = ["the data directory is found through XDG_DATA_HOME (platformdirs); the harness asserts every database path lies inside the run's scratch home"]
     real_components = ["PeeweeStorage (legacy store at default path)", "SqliteStorage (new store at default path)", "aw_datastore.migration", "aw_core.dirs / platformdirs", "SQLite engine", "peewee ORM"]
     stub_components = ["home directory (XDG_* in scratch)", "loggers", "the legacy client (generated history)"]
@@ -228,7 +245,9 @@ class C14(Check):
         steps.append({"op": "first_start", "dirty": r.random() < 0.3})
         # the library has no shutdown call: a process that migrated, served reads and exited without ceremony
         # is the ordinary lifecycle, so half of the restarts abandon the connection instead of flushing it
-        if any(x["op"] == "switch_profile" for x in steps) and r.random() < 0.5:
+        if r.random() < 0.3:
+            steps.append({"op": "new_delete_bucket", "k": r.randrange(0, 100)})
+        elif any(x["op"] == "switch_profile" for x in steps) and r.random() < 0.5:
             steps.append({"op": "first_start_other"})
         steps.append({"op": "restart_new", "dirty": r.random() < 0.5})
         return {"backend": "peewee-to-sqlite", "profile": profile, "steps": steps, "lat": lat}
@@ -278,6 +297,9 @@ class C14(Check):
                 pr["unicode_bucket_id"] += 1
             if any(o != b and o.lower() == b.lower() for o in want):
                 pr["bucket_ids_differ_in_case"] += 1
+        back = sorted(b for b in world.deleted_after if b in got)
+        if back:
+            raise Violation("events_duplicated", "bucket(s) %s, migrated once and deleted by the user since, are back after %s: the migration ran again" % (back, op), {"op": op, "kind": "migration_rerun"})
         self._shape = sorted((b, len(v["events"])) for b, v in want.items())
         for prof, h in world.legacy_hash.items():
             p = world.legacy_path(prof)
@@ -286,7 +308,7 @@ class C14(Check):
 
     def after(self, world, step, out, i):
         op = step["op"]
-        if op in ("first_start", "restart_new", "first_start_other"):
+        if op in ("first_start", "restart_new", "first_start_other", "new_delete_bucket"):
             if out.get("exc") is not None:
                 raise Violation("events_lost", "%s of the new store raised %r" % (op, out["exc"]), {"op": op})
             self._compare(world, op)
